@@ -2,19 +2,77 @@
 """Prints the markdown table of section 11 of DESIGN.md from /verif/seeded/*/meta.json."""
 import json, glob, os, re
 WIDENED = {
- "C04-2": "alphabet gained signer certificates without any EKU (sibling, and the checked leaf itself without EKU)",
- "C04-3": "alphabet gained Revoked answers whose revocation time lies after the signing time",
- "C09-2": "the worker's temp directory was never created, so the file readers were not reached (vacuity bug); fixed, `deep-F` is now a required counter; spinning is detected by CPU time",
- "C11-2": "scenarios with a real 20 ms client timeout against responders that never answer",
- "C11-3": "non-http source kinds added to C11's plans",
- "C12-3": "shape invariants are now also checked on what a cancelled call returns",
- "C14-3": "catalogue gained a re-issued twin of the root in front of the root",
- "C16-3": "more trailing-data payload shapes (`}}`, `}]`, `} ] x`, ...)",
- "C17-3": "one-caller-fault workloads: one of several concurrent callers is cancelled / panics once, the others must be unaffected",
- "C18-2": "delta locations are advertised in unsorted order",
- "C19-2": "pool gained look-alikes with the same issuer AND serial",
- "C02-2": "key pool gained RSA 1536 / 2560 / 3584",
- "C08-3": "returned bytes must stay unchanged by later Sign calls (C08, C20)",
+ # "miss:" = the first run of the quick tier did not report it (or only a sibling check did); the workload was
+ # widened and the change re-run. "desc:" = the workload was widened on reading the sub-agent's description,
+ # before the first run against the change.
+ "C04-2": "miss: alphabet gained signer certificates without any EKU (sibling, and the checked leaf itself without EKU)",
+ "C04-3": "miss: alphabet gained Revoked answers whose revocation time lies after the signing time",
+ "C09-2": "miss: the worker's temp directory was never created, so the file readers were not reached (vacuity bug); fixed, `deep-F` is now a required counter; spinning is detected by CPU time",
+ "C11-2": "miss: scenarios with a real 20 ms client timeout against responders that never answer",
+ "C11-3": "miss: non-http source kinds added to C11's plans",
+ "C12-3": "miss: shape invariants are now also checked on what a cancelled call returns",
+ "C14-3": "miss: catalogue gained a re-issued twin of the root in front of the root",
+ "C16-3": "miss: more trailing-data payload shapes (`}}`, `}]`, `} ] x`, ...)",
+ "C17-3": "miss: one-caller-fault workloads: one of several concurrent callers is cancelled / panics once, the others must be unaffected",
+ "C18-2": "miss: delta locations are advertised in unsorted order",
+ "C19-2": "miss: pool gained look-alikes with the same issuer AND serial",
+ "C02-2": "miss: key pool gained RSA 1536 / 2560 / 3584",
+ "C08-3": "miss: returned bytes must stay unchanged by later Sign calls (C08, C20)",
+ "C01-5": "miss (only C08 saw it): C01's corpus gained signers outside UTC",
+ "C02-4": "miss (only C20 saw it): C02's remote-signer cells also run on a used envelope object",
+ "C04-4": "miss (only C11 saw it): C04 configurations with a clean CRL behind the responders",
+ "C06-5": "miss (only C18 saw it): C06 repeats calls on the same validator, fetcher and cache",
+ "C07-5": "miss (only C20 saw it): C08 signs on used objects and re-reads the signing object",
+ "C13-4": "miss (only C20 saw it): same as C07-5",
+ "C09-4": "needs two goroutines inside one map at the same instant: only C17's race-detector child reports it; C09 (which now answers several certificates' CRL requests simultaneously) does not within the quick budget",
+ "C09-5": "miss: C09's hostile-certificate part draws chains from the C03/C14 catalogue",
+ "C09-6": "desc: servers that announce a Content-Length unrelated to the body",
+ "C11-4": "desc: two-call histories on one validator (Env.Replan)",
+ "C11-5": "desc: undecodable (not just trailing-data) invalidity dates",
+ "C12-4": "desc: broken arrangements of a chain validated a moment earlier",
+ "C12-5": "desc: every returned result is scribbled over after it was judged",
+ "C12-6": "desc: last certificates that advertise responders / distribution points",
+ "C14-6": "miss: last certificate naming SHA-1 over a signature that does not verify",
+ "C15-4": "desc: defective CAs sit above the very same leaf certificate as the clean chain",
+ "C15-5": "desc: host trust store made to hold the authority's roots; nil / empty caller pools",
+ "C15-6": "desc: a quarter of the requests pass through SignRequest.WithContext",
+ "C16-4": "desc: RSA keys with the leaf's modulus and another public exponent",
+ "C16-5": "miss (only C20 saw it): C16 repeats every single change on a used object",
+ "C16-6": "miss (only C03 saw it): root / CA validity defects in C16's chain list",
+ "C17-6": "desc: the network double tracks response bodies until Close",
+ "C18-5": "desc: five malformed freshest-CRL shapes instead of one",
+ "C20-5": "desc: unreachable timestamp authority as a further late failure",
+ "C20-6": "desc: COSE start state whose one-certificate chain is a bare byte string",
+ "C01-7": "desc: signature fields of suggestive shapes (DER forms, ECDSA twin, zeros)",
+ "C01-8": "reported by C07 (long-s look-alike of the time header added there on reading the description)",
+ "C02-7": "desc: all of C02's leaves carry the same subject key identifier",
+ "C03-8": "desc: a CA named like its issuer (self-issued, not self-signed) as benign catalogue item",
+ "C03-9": "desc: self-signed twin inserted below any CA",
+ "C04-7": "desc: second calls on a used validator with the other signing-time setting",
+ "C04-9": "desc: Revoked answers with reason codes 7, 8 and 10",
+ "C05-9": "desc: distribution points that differ only in their query string",
+ "C06-7": "desc: the oversized CRL is a genuine clean CRL padded beyond the cap (quick tier too)",
+ "C07-8": "miss (only C13 / C08 saw it, as a panic on a valid input): several extended attributes as benign variation in C07; panics where success is required are violations",
+ "C09-8": "desc: multi-block PEM key files (EC PARAMETERS ...)",
+ "C09-9": "C06 ran into the watchdog (executions inconclusive) while C09 reported the hang",
+ "C10-7": "desc: invalidity dates seven decades after the signing time",
+ "C10-9": "miss: the sibling certificate is checked against the same bundle object; C17 fingerprints shared bundles",
+ "C11-9": "miss (and a selection bug in the harness: the cached histories were never generated): second calls behind a caching HTTPFetcher",
+ "C12-7": "desc: signing times outside every validity period",
+ "C13-7": "desc: after another object signed, the first object is verified again (C08)",
+ "C13-8": "desc: labels that differ only in letter case",
+ "C14-7": "desc: extended key usage as the first extension",
+ "C14-9": "desc: authority key identifier unlike the issuer's subject key identifier",
+ "C15-7": "desc: a second authority that some concurrent callers trust",
+ "C16-7": "desc: expiry at the same instant in another time zone",
+ "C16-8": "desc: attribute keys of unhashable Go types",
+ "C16-9": "desc: long-s look-alike attribute keys",
+ "C17-7": "desc: shared bundle fingerprints; neighbours' entries in descending serial order",
+ "C18-8": "desc: caches that report misses wrapped",
+ "C18-9": "desc: live observation of a cached bundle crossing its next-update instant",
+ "C19-9": "desc: one trust-list buffer refilled call after call",
+ "C20-8": "reported by C08 / C16 (first object re-verified after another object signed); C20 gained 'another object signs elsewhere' as an operation afterwards",
+ "C20-9": "desc: context cancelled while the signer works",
 }
 rows = []
 for d in sorted(glob.glob("/verif/seeded/*/meta.json"), key=lambda p: (p.split("/")[-2].split("-")[0], int(p.split("/")[-2].split("-")[1]))):
@@ -25,7 +83,7 @@ for d in sorted(glob.glob("/verif/seeded/*/meta.json"), key=lambda p: (p.split("
         summ = summ[:207] + "..."
     caught = ", ".join(m.get("caught_by", [])) or "**none**"
     rows.append("| %s | %s | %s | %s |" % (sid, summ.replace("|", "/"), caught, WIDENED.get(sid, "")))
-print("| change | what was changed | reported by (quick tier) | widened after a first miss |")
+print("| change | what was changed | reported by (quick tier) | workload widened (miss: after a first miss; desc: on reading the description) |")
 print("|---|---|---|---|")
 print("\n".join(rows))
 print("\n%d changes kept." % len(rows))
